@@ -21,6 +21,7 @@ def _case(draw, worlds):
     case = {'W': W, 'method': method, 'prediv': prediv,
             'spec': draw(gens.model_spec(max_layers=4, max_dim=6, max_out=5, nd_linear=False)),
             'in_hook': draw(st.booleans()), 'accum': draw(st.sampled_from([1, 1, 2])), 'N': draw(st.integers(1, 2)),
+            'zero_to_none': draw(st.booleans()),
             'hp': {'factor_update_steps': draw(st.integers(1, 3)), 'inv_update_steps': draw(st.integers(1, 5)), 'damping': 0.01,
                    'factor_decay': 0.9, 'kl_clip': 1e-3, 'lr': 0.1},
             'inv_dtype': draw(st.sampled_from(['float32', 'float32', 'float64'])),
